@@ -164,6 +164,32 @@ impl Ctx {
         }
     }
 
+    /// A context that does not read known_findings.json (for fuzz targets: one per execution).
+    pub fn bare(prop: &str) -> Ctx {
+        Ctx {
+            prop: prop.to_string(),
+            tier: Tier::Quick,
+            seed: 0,
+            shard: 0,
+            nshards: 1,
+            evals: 0,
+            nontrivial: HashSet::new(),
+            samples: vec![],
+            sample_seen: 0,
+            classes: BTreeMap::new(),
+            excluded: 0,
+            violations: vec![],
+            known_hits: BTreeMap::new(),
+            open_sigs: BTreeSet::new(),
+            exhaustive: false,
+            notes: vec![],
+            counting: false,
+            journal: None,
+            max_violations: 3,
+            max_shrink_iters: 0,
+        }
+    }
+
     pub fn set_journal(&mut self, path: &Path) {
         self.journal = std::fs::OpenOptions::new()
             .create(true)
